@@ -5,6 +5,7 @@ import (
 	"fmt"
 	"net"
 	"os"
+	"strings"
 	"sync"
 	"sync/atomic"
 	"syscall"
@@ -536,8 +537,8 @@ func genMatch(rt *rapid.T, call string) string {
 			f.Extra = common.GenValidDIBs(rt)
 		}
 		b, _ := common.RefEncode(f)
-		var s knxnet.Service
-		if _, err := knxnet.Unpack(b, &s); err == nil && len(b) <= 1024 {
+		// a response the decoder spins on is kept: the call has to cope with it (and is watched)
+		if _, err := decodeWithin(b, 3*time.Second); (err == nil || strings.Contains(err.Error(), "did not return")) && len(b) <= 1024 {
 			return hex.EncodeToString(b)
 		}
 	}
@@ -586,8 +587,7 @@ func genPlanC20(rt *rapid.T) c20Plan {
 				f.Extra = append(f.Extra, common.RDIB{Len: 4, Type: 0xfe, Body: []byte{byte(k), byte(i)}})
 			}
 			b, _ := common.RefEncode(f)
-			var sv knxnet.Service
-			if _, err := knxnet.Unpack(b, &sv); err != nil || len(b) > 1024 {
+			if _, err := decodeWithin(b, 3*time.Second); err != nil || len(b) > 1024 {
 				continue
 			}
 			p.Steps = append(p.Steps, c20Step{AtUs: at, Kind: "match", Hex: hex.EncodeToString(b)})
@@ -634,8 +634,9 @@ func genPlanC20(rt *rapid.T) c20Plan {
 					st.Hex = st.Hex[:n]
 				}
 			}
-			var s knxnet.Service
-			if _, err := knxnet.Unpack(unhex(st.Hex), &s); err == nil {
+			// (the generator classifies the datagram by decoding it; a decoder that spins on it must not stall the
+			// generator - the call under test will show the problem, under the watchdog)
+			if s, err := decodeWithin(unhex(st.Hex), 3*time.Second); err == nil {
 				if (p.Call == "discover" && s.Service() == knxnet.SearchResService) || (p.Call != "discover" && s.Service() == knxnet.DescrResService) {
 					st.Kind = "match" // the mutation left a decodable response: it counts as a response
 				} else {
@@ -654,13 +655,41 @@ func genPlanC20(rt *rapid.T) c20Plan {
 	return p
 }
 
+// decodeWithin decodes in a goroutine and gives up after d (the goroutine is left behind if the decoder spins).
+func decodeWithin(b []byte, d time.Duration) (knxnet.Service, error) {
+	type out struct {
+		s   knxnet.Service
+		err error
+	}
+	ch := make(chan out, 1)
+	go func() {
+		defer func() {
+			if r := recover(); r != nil {
+				ch <- out{nil, fmt.Errorf("panic: %v", r)}
+			}
+		}()
+		var s knxnet.Service
+		_, err := knxnet.Unpack(b, &s)
+		ch <- out{s, err}
+	}()
+	select {
+	case o := <-ch:
+		return o.s, o.err
+	case <-time.After(d):
+		return nil, fmt.Errorf("the decoder did not return within %v", d)
+	}
+}
+
 func TestC20(t *testing.T) {
 	rec := common.NewRec("C20", "sock")
 	completed := false
 	defer func() { rec.Finish(completed) }()
+	wd := common.NewWatchdog(rec, 60*time.Second)
 	run := func(p c20Plan) *common.Fail {
 		rec.InFlight(p)
+		wd.Enter("the describe/discover call (timeout "+(time.Duration(p.TimeoutUs)*time.Microsecond).String()+")", p)
 		f, inc := c20Run(p)
+		wd.Leave()
 		rec.Landed()
 		if inc != "" {
 			rec.Inconclusive(inc)
